@@ -18,7 +18,11 @@ RULE = ('every prefix 0..width x structured values x both families, each spelled
         'implicit_prefix in {False, True}; str() round trip of every (version, value, prefix); out-of-range prefixes '
         '(-1, width+1, huge), single-bit-hole and random non-contiguous masks, malformed addresses, second slash; 1-4 '
         'octet partial and classful abbreviations at every class boundary; edit-distance<=2 neighbours of the spelled '
-        'strings; random strings. non-trivial = distinct case whose implementation output is not an error')
+        'strings; random strings; 1-5 octet pieces in every spelling int() reads or nearly reads (zero-padded, signed, '
+        'spaced, underscored, hex, empty) with no suffix / numeral / signed numeral / netmask / hostmask / broken mask '
+        'suffix under every (implicit_prefix, version, flags); signed and huge numeral prefixes after arbitrary address '
+        'parts; tuples over boundary values x boundary prefixes x version None/4/6 x flags x implicit_prefix. '
+        'non-trivial = distinct case whose implementation output is not an error')
 NOHOST = 4
 ALPHA = '0123456789abcdefABCDEFxX.:/ +-_\t\n'
 
@@ -202,6 +206,76 @@ NEARN = ['1.2.3.4/33', '1.2.3.4/32', '1.2.3.4/-1', '1.2.3.4/ 24', '1.2.3.4/+24',
          '1.2.3.4.5', 'abc', '::1', '1.2.3.4/24', '01.2.3.4/24', '1.2.3.4/024', '1.2.3.04']
 
 
+
+OCTV = [0, 1, 7, 9, 10, 99, 100, 126, 127, 128, 191, 192, 223, 224, 239, 240, 254, 255, 256, 300, 1000]
+SUFFIX = ['', '', '/0', '/8', '/16', '/24', '/31', '/32', '/33', '/-1', '/-0', '/+8', '/ 8', '/8 ', '/08', '/1_6', '/0x8',
+          '/255.0.0.0', '/255.255.0.0', '/255.255.255.255', '/0.0.0.0', '/0.0.255.255', '/0.255.255.255', '/255.0.255.0',
+          '/1.2.3.4', '/255.255.0', '/ffff::', '/', '//', '/8/', '/128', '/129']
+
+
+def _oct_spell(rng, n):
+    """one octet value in a spelling int() reads - or just does not"""
+    k = rng.randrange(14)
+    d = '%d' % n
+    if k <= 3:
+        return d
+    if k == 4:
+        return '0' + d
+    if k == 5:
+        return '00' + d
+    if k == 6:
+        return '+' + d
+    if k == 7:
+        return rng.choice([' ', '\t', '\n', '  ']) + d
+    if k == 8:
+        return d + rng.choice([' ', '\t', '\n'])
+    if k == 9:
+        return d[0] + '_' + d[1:] if len(d) > 1 else d + '_'
+    if k == 10:
+        return '-' + d
+    if k == 11:
+        return rng.choice(['0x%x' % n, '%do' % n, '%de0' % n, d + '.', '', ' ', '+', '-', '+-' + d, '_' + d])
+    if k == 12:
+        return '+0' + d
+    return d
+
+
+def octet_strings(rng, count):
+    out = []
+    for _ in range(count):
+        k = rng.choice([1, 1, 2, 2, 3, 3, 4, 4, 5])
+        toks = [_oct_spell(rng, rng.choice(OCTV + [rng.randrange(256)])) for _ in range(k)]
+        out.append('.'.join(toks) + rng.choice(SUFFIX))
+    return out
+
+
+def signed_prefix_strings(rng, count):
+    out = []
+    for _ in range(count):
+        ver = rng.choice([4, 6])
+        a = rng.choice([ref_addr_str(ver, rand_value(rng, W[ver])), '10', '10.1', '192.168.1', '::', '1.2.3', 'x', '', '256',
+                        '1.2.3.4.5', '010.1', '::ffff:1.2.3.4'])
+        n = rng.choice([0, 1, 2, 8, 31, 32, 33, 64, 127, 128, 129, 255, 256, 1 << 32, 1 << 70])
+        out.append(a + '/' + rng.choice(['-', '+', ' -', '- ', '-0', '+0', '']) + '%d' % n)
+    return out
+
+
+def tuple_cases(rng, count):
+    vals = [-1, 0, 1, 5, (1 << 31), (1 << 32) - 1, 1 << 32, (1 << 32) + 1, (1 << 64) + 12345, (1 << 128) - 1, 1 << 128,
+            (1 << 128) + 1, -(1 << 32), 0xC0A80105, 0xfe80 << 112 | 0xabcdef]
+    prefs = [-1, 0, 1, 8, 24, 31, 32, 33, 64, 127, 128, 129, 1 << 20, -32]
+    out = []
+    for _ in range(count):
+        v = rng.choice(vals + [rng.getrandbits(32), rng.getrandbits(128)])
+        pl = rng.choice(prefs + [rng.randrange(0, 129)])
+        pver = rng.choice([None, None, 4, 6])
+        flags = rng.choice([0, NOHOST])
+        implicit = rng.random() < 0.5
+        out.append(Case(_line('tuple', plist([str(v), str(pl)]), implicit, pver, flags), 'tuple/all',
+                        ('tuple2', v, pl, pver, flags, implicit)))
+    return out
+
+
 def corpus():
     """witnesses of the fixed finding F14 (IndexError escaping / second slash)"""
     out = []
@@ -271,6 +345,8 @@ def generate(rng, tier):
         strings.append('%d' % o)
         strings.append('%d.%d' % (o, rng.randrange(256)))
     strings += NEARN + NEAR4[:40] + NEAR6[:40]
+    dense = set(octet_strings(rng, 150 * mult) + signed_prefix_strings(rng, 50 * mult))
+    strings += sorted(dense)
     base = list(strings)
     for s in rng.sample(base, min(len(base), 250 * mult)):
         strings.append(edits(rng, s, 1))
@@ -284,13 +360,14 @@ def generate(rng, tier):
             continue        # prefix / octet numerals go through int(): non-ASCII digits are outside the domain
         seen.add(s)
         grid = [(i, v, f) for i in (False, True) for v in (None, 4, 6) for f in (0, NOHOST)]
-        pick = grid if s in NEARN else rng.sample(grid, 3)
+        pick = grid if s in NEARN else rng.sample(grid, 5 if s in dense else 3)
         for implicit, ver, flags in pick:
-            cases.append(raw_case(s, implicit, ver, flags, 'near' if s in NEARN else 'gen'))
+            cases.append(raw_case(s, implicit, ver, flags, 'near' if s in NEARN else 'oct' if s in dense else 'gen'))
         if all(ord(c) < 128 for c in s):
             cases.append(Case('abbrev ' + hexs(s), 'abbrev', ('abbrev', s)))
             if rng.random() < 0.5 or s in NEARN:
                 cases.append(Case('expand ' + hexs(s), 'expand', ('expand', s)))
+    cases += tuple_cases(rng, 150 * mult)
     cases.append(raw_case('1.2.3.4/8', False, 5, 0, 'badversion'))
     cases.append(raw_case('1.2.3.4/8', False, 0, 0, 'badversion'))
     cases += platform_cases.pyint_cases(rng, 200 * mult)
@@ -356,6 +433,9 @@ def impl(c):
         if op == 'tuple':
             _, v, p, ver, flags = a
             return _show(IPNetwork((v, p), version=ver, flags=flags))
+        if op == 'tuple2':
+            _, v, p, ver, flags, implicit = a
+            return _show(IPNetwork((v, p), implicit_prefix=implicit, version=ver, flags=flags))
         if op == 'netstr':
             _, ver, v, p = a
             return hexs(str(IPNetwork((v, p), version=ver)))
@@ -421,6 +501,17 @@ def oracle(c, got):
                 exp = '%d:%d/%d' % (vv, v, p)
                 break
         return None if got == exp else 'IPNetwork((%d, %d), version=%r) -> %s, expected %s' % (v, p, ver, got, exp)
+    if op == 'tuple2':
+        _, v, p, ver, flags, implicit = a
+        exp = '!addrFormat'
+        for vv in ([ver] if ver else [4, 6]):
+            w = W[vv]
+            if 0 <= v < (1 << w) and 0 <= p <= w:
+                ev = (v >> (w - p)) << (w - p) if flags & NOHOST else v
+                exp = '%d:%d/%d' % (vv, ev, p)
+                break
+        return None if got == exp else 'IPNetwork((%d, %d), implicit_prefix=%s, version=%r, flags=%d) -> %s, expected %s' % (
+            v, p, implicit, ver, flags, got, exp)
     if op == 'netstr':
         _, ver, v, p = a
         exp = '%s/%d' % (ref_addr_str(ver, v), p)
@@ -463,6 +554,8 @@ def repro(c):
         return pre + 'IPNetwork(%r, implicit_prefix=%s, version=%r, flags=%d)' % (a[1], a[2], a[3], a[4])
     if a[0] == 'tuple':
         return pre + 'IPNetwork((%d, %d), version=%r, flags=%d)' % (a[1], a[2], a[3], a[4])
+    if a[0] == 'tuple2':
+        return pre + 'IPNetwork((%d, %d), implicit_prefix=%s, version=%r, flags=%d)' % (a[1], a[2], a[5], a[3], a[4])
     if a[0] in ('netstr', 'str_rt'):
         return pre + 'n = IPNetwork((%d, %d), version=%d); str(n), IPNetwork(str(n))' % (a[2], a[3], a[1])
     if a[0] == 'abbrev':
